@@ -1111,7 +1111,7 @@ class Crystal(object):
                     if type(u) is not np.ndarray: raise TypeError("{} in {} is not an array".format(u, elem))
             newbasis = [[incell(u) for u in atombasis] for atombasis in basis]
         if chemistry is None:
-            newchemistry = self.chemistry + [i + self.Nchem for i in range(len(newbasis))]
+            newchemistry = self.chemistry + ['{}'.format(i + self.Nchem) for i in range(len(newbasis))]
         else:
             newchemistry = self.chemistry + chemistry
         # a little complicated: need to deal with (1) no spin at all; (2) having no spin and adding;
